@@ -8,6 +8,8 @@ import Verif.NumReal
 import Mathlib.Analysis.SpecialFunctions.ImproperIntegrals
 import Mathlib.Analysis.SpecialFunctions.Trigonometric.Bounds
 import Mathlib.Data.Int.Interval
+import Mathlib.Analysis.Calculus.Deriv.MeanValue
+import Mathlib.Analysis.Calculus.Deriv.Pow
 import Mathlib.Algebra.BigOperators.Intervals
 import Mathlib.Tactic.Ring
 import Mathlib.Tactic.Linarith
@@ -187,6 +189,43 @@ theorem brennerP_le_faxenP (x : ℝ) (h0 : 0 ≤ x) (h1 : x ≤ 1) : brennerP x 
   have h4 : 0 ≤ x^4 := by positivity
   have h12 : 0 ≤ x^12 := by positivity
   nlinarith
+
+/-! #### the Brenner denominator is strictly decreasing on `[0, 1]` (derivative `< 0`) -/
+
+noncomputable def brennerP' (x : ℝ) : ℝ := -9/8 + 3/2*x^2 - 57/25*x^3 + x^4 + 77/200*x^10 - 12/25*x^11
+
+theorem brennerP_hasDerivAt (x : ℝ) : HasDerivAt brennerP (brennerP' x) x := by
+  have hm : ∀ (c : ℝ) (n : ℕ), HasDerivAt (fun x : ℝ => c * x ^ n) (c * (n * x ^ (n - 1))) x :=
+    fun c n => (hasDerivAt_pow n x).const_mul c
+  have h := ((((((hasDerivAt_const x (1:ℝ)).sub ((hasDerivAt_id' x).const_mul (9/8))).add (hm (1/2) 3)).sub
+    (hm (57/100) 4)).add (hm (1/5) 5)).add (hm (7/200) 11)).sub (hm (1/25) 12)
+  have hf : brennerP = fun x => 1 - 9/8*x + 1/2*x^3 - 57/100*x^4 + 1/5*x^5 + 7/200*x^11 - 1/25*x^12 := by
+    funext y; rfl
+  rw [hf]
+  refine h.congr_deriv ?_
+  unfold brennerP'
+  norm_num
+  ring
+
+theorem brennerP'_neg (x : ℝ) (h0 : 0 ≤ x) (h1 : x ≤ 1) : brennerP' x < 0 := by
+  unfold brennerP'
+  have h43 : x^4 ≤ x^3 := by
+    have : x^4 = x^3 * x := by ring
+    rw [this]; exact mul_le_of_le_one_right (by positivity) h1
+  have h10 : x^10 ≤ 1 := pow_le_one₀ h0 h1
+  have h11 : 0 ≤ x^11 := by positivity
+  -- 3/2 x² − 32/25 x³ ≤ 7/20 on [0,1]
+  have key : 3/2*x^2 - 32/25*x^3 ≤ 7/20 := by
+    nlinarith [mul_nonneg h0 (sq_nonneg (x - 39/50)), sq_nonneg (x - 98/125)]
+  nlinarith
+
+theorem brennerP_strictAntiOn : StrictAntiOn brennerP (Set.Icc 0 1) := by
+  apply strictAntiOn_of_deriv_neg (convex_Icc 0 1)
+  · exact fun x _ => (brennerP_hasDerivAt x).continuousAt.continuousWithinAt
+  · intro x hx
+    rw [interior_Icc] at hx
+    rw [(brennerP_hasDerivAt x).deriv]
+    exact brennerP'_neg x hx.1.le hx.2.le
 
 theorem half_pows (x : ℝ) (h0 : 0 < x) (h1 : x ≤ 1/2) :
     x^2 ≤ x/2 ∧ x^3 ≤ x/4 ∧ x^4 ≤ x/8 ∧ x^5 ≤ x/16 ∧ x^6 ≤ x/32 := by
